@@ -11,7 +11,7 @@ P_READ, P_WNR, P_WRITE, P_NOTIFY, P_INDICATE = 2, 4, 8, 16, 32
 HOOK_NAMES = ["read", "write", "written", "written2", "sub", "unsub", "notif", "indic"]
 EXC_CODE = {None: 0, "AttributeError": 1, "TypeError": 2, "IndexError": 3, "HookBoom": 4,
             "HookReturnValue": 5, "HookReturnAuthentRequired": 5, "HookReturnAuthorRequired": 5,
-            "HookReturnAccessDenied": 5, "HookReturnNotFound": 5, "HookReturnGattError": 5, "WouldDeadlock": 6}
+            "HookReturnAccessDenied": 5, "HookReturnNotFound": 5, "HookReturnGattError": 5, "WouldDeadlock": 6, "WouldBlockForever": 7}
 
 
 def le16(x):
@@ -422,7 +422,9 @@ class HistoryGen:
             return ("Confirmation",)
         if k == 98:
             return ("SignedWriteCmd", self.handle(["KValue"]), rand_bytes(rng, 13))
-        x = rng.randrange(4)
+        x = rng.randrange(6)
+        if x >= 4:
+            return self.response_pdu()
         if x == 0:
             # unknown opcode that is neither a request (command flag, odd opcode): ignored
             return ("UnknownOp", rng.choice([0x21, 0x23, 0x3B, 0x60, 0x54, 0xE0]), rand_bytes(rng, rng.randrange(0, 5)))
@@ -431,6 +433,50 @@ class HistoryGen:
             op = rng.choice(KNOWN_REQUESTS)
             return ("UnknownOp", op, rand_bytes(rng, rng.randrange(0, 2) if op != 0x18 else 0))
         return ("UnknownOp", rng.choice([0x20, 0x20, 0x22, 0x3A, 0x14, 0xA0, 0x00]), rand_bytes(rng, rng.randrange(0, 5)))
+
+    def response_pdu(self):
+        """a well-formed RESPONSE-type PDU sent by the client although the server asked nothing (a server queues
+        Error Responses and Exchange MTU Responses for its own procedures and ignores the others): encoded as
+        UnknownOp <odd opcode> <parameters> -- for the model a PDU that is neither request, command nor indication"""
+        rng = self.rng
+        h = le16(self.handle())
+        k = rng.randrange(14)
+        if k <= 3:
+            return ("UnknownOp", 0x01, bytes([rng.choice([0x0A, 0x12, 0x52, 0x02, 0x1D, 0x20])]) + h
+                    + bytes([rng.choice([0x01, 0x06, 0x0A, 0x0E, 0x80])]))
+        if k <= 6:
+            return ("UnknownOp", 0x03, le16(rng.choice([23, 23, 50, 185, 517, 0, 65535])))
+        if k == 7:
+            return ("UnknownOp", 0x05, b"\x01" + h + b"\x00\x28")
+        if k == 8:
+            return ("UnknownOp", 0x07, h + le16(0xFFFF))
+        if k == 9:
+            if rng.random() < 0.5:
+                return ("UnknownOp", 0x11, b"\x06" + h + le16(0xFFFF) + b"\x00\x18")
+            return ("UnknownOp", 0x09, b"\x04" + h + b"\x01\x02" if rng.random() < 0.5 else b"\x07" + h + b"\x02" + h + b"\x00\x2a")
+        if k == 10:
+            return ("UnknownOp", rng.choice([0x0B, 0x0D, 0x0F]), rand_bytes(rng, rng.randrange(0, 6)))
+        if k == 11:
+            return ("UnknownOp", rng.choice([0x13, 0x19]), b"")
+        if k == 12:
+            return ("UnknownOp", 0x17, h + le16(0) + rand_bytes(rng, rng.randrange(0, 4)))
+        return ("Confirmation",)
+
+    def response_history(self, n):
+        """requests interleaved with unsolicited responses, sometimes dozens in a row"""
+        rng = self.rng
+        evs = []
+        while len(evs) < n:
+            x = rng.random()
+            if x < 0.25:
+                for _ in range(rng.choice([2, 5, 9, 12, 20, 40])):
+                    evs.append({"op": "req", "req": self.response_pdu(), "hooks": {}})
+                evs.append({"op": "req", "req": self.request(), "hooks": {}})
+            elif x < 0.6:
+                evs.append({"op": "req", "req": self.response_pdu(), "hooks": {}})
+            else:
+                evs.append(self.event())
+        return evs
 
     def event(self):
         rng = self.rng
